@@ -270,3 +270,72 @@ package parse
 //@   requires a != nil
 //@   modifies a.Regexp
 //@   ensures implies(result == nil, a.Regexp != nil && hasprefix(re_source(a.Regexp), "^(") && hassuffix(re_source(a.Regexp), ")$"))
+
+// ---------------------------------------------------------------------------
+// The parser's three-token look-ahead buffer (C10), against the abstract view "stream of items delivered by
+// the lexer + cursor": chanitem(items, k) is the k-th item, tcur the index of the next item to be parsed.
+// token[k] (k < peekCount) holds the item k positions before the last one received.
+//@ define tcur(t) = nrecv(t.lex.items) - t.peekCount
+//@ define tokWF(t) = t != nil && t.lex != nil && 0 <= t.peekCount && t.peekCount <= 3 && t.peekCount <= nrecv(t.lex.items) &&
+//@     forall(k, 0, t.peekCount, t.token[k] == chanitem(t.lex.items, nrecv(t.lex.items) - 1 - k))
+//@ func (*lexer).nextItem
+//@   requires l != nil
+//@   modifies l.lastPos
+//@   modifies received(l.items)
+//@   nopanic
+//@   ensures result == chanitem(l.items, old(nrecv(l.items))) && nrecv(l.items) == old(nrecv(l.items)) + 1 && l.lastPos == result.pos
+//@ func (*Tree).next
+//@   requires tokWF(t)
+//@   modifies t.peekCount
+//@   modifies t.token
+//@   modifies t.lex.lastPos
+//@   modifies received(t.lex.items)
+//@   nopanic
+//@   ensures tokWF(t) && result == chanitem(t.lex.items, old(tcur(t))) && tcur(t) == old(tcur(t)) + 1 && t.token[t.peekCount] == result && t.peekCount <= 2 && t.peekCount < nrecv(t.lex.items)
+//@ func (*Tree).backup
+//@   requires tokWF(t) && t.peekCount < 3 && t.peekCount < nrecv(t.lex.items) && t.token[t.peekCount] == chanitem(t.lex.items, nrecv(t.lex.items) - 1 - t.peekCount)
+//@   modifies t.peekCount
+//@   nopanic
+//@   ensures tokWF(t) && tcur(t) == old(tcur(t)) - 1
+//@ func (*Tree).backup2
+//@   requires t != nil && t.lex != nil && nrecv(t.lex.items) >= 2 && t.token[0] == chanitem(t.lex.items, nrecv(t.lex.items) - 1) && t1 == chanitem(t.lex.items, nrecv(t.lex.items) - 2)
+//@   modifies t.peekCount
+//@   modifies t.token
+//@   nopanic
+//@   ensures tokWF(t) && tcur(t) == nrecv(t.lex.items) - 2
+//@ func (*Tree).backup3
+//@   requires t != nil && t.lex != nil && nrecv(t.lex.items) >= 3 && t.token[0] == chanitem(t.lex.items, nrecv(t.lex.items) - 1) &&
+//@            t1 == chanitem(t.lex.items, nrecv(t.lex.items) - 2) && t2 == chanitem(t.lex.items, nrecv(t.lex.items) - 3)
+//@   modifies t.peekCount
+//@   modifies t.token
+//@   nopanic
+//@   ensures tokWF(t) && tcur(t) == nrecv(t.lex.items) - 3
+//@ func (*Tree).peek
+//@   requires tokWF(t)
+//@   modifies t.peekCount
+//@   modifies t.token
+//@   modifies t.lex.lastPos
+//@   modifies received(t.lex.items)
+//@   nopanic
+//@   ensures tokWF(t) && result == chanitem(t.lex.items, old(tcur(t))) && tcur(t) == old(tcur(t))
+// Separators (runs of blanks and line breaks) are skipped and change nothing but the cursor.
+//@ func (*Tree).nextNonSpace
+//@   requires tokWF(t)
+//@   modifies t.peekCount
+//@   modifies t.token
+//@   modifies t.lex.lastPos
+//@   modifies received(t.lex.items)
+//@   nopanic
+//@   ensures tokWF(t) && tcur(t) > old(tcur(t)) && result == chanitem(t.lex.items, tcur(t) - 1) && result.typ != itemSep
+//@   ensures forall(k, old(tcur(t)), tcur(t) - 1, chanitem(t.lex.items, k).typ == itemSep)
+//@   loop 0 invariant tokWF(t) && tcur(t) >= old(tcur(t)) && t.lex == old(t.lex) && forall(k, old(tcur(t)), tcur(t), chanitem(t.lex.items, k).typ == itemSep)
+//@ func (*Tree).peekNonSpace
+//@   requires tokWF(t)
+//@   modifies t.peekCount
+//@   modifies t.token
+//@   modifies t.lex.lastPos
+//@   modifies received(t.lex.items)
+//@   nopanic
+//@   ensures tokWF(t) && tcur(t) >= old(tcur(t)) && result == chanitem(t.lex.items, tcur(t)) && result.typ != itemSep
+//@   ensures forall(k, old(tcur(t)), tcur(t), chanitem(t.lex.items, k).typ == itemSep)
+//@   loop 0 invariant tokWF(t) && tcur(t) >= old(tcur(t)) && t.lex == old(t.lex) && forall(k, old(tcur(t)), tcur(t), chanitem(t.lex.items, k).typ == itemSep)
